@@ -455,53 +455,145 @@ Lemma pick_filter_parts0 (q : participant -> bool) (q' : loader -> bool) :
   forall ls, pick ls (filter q (parts_from 0 ls)) = filter q' ls.
 Proof. intros Hq ls. exact (pick_filter_parts q q' Hq ls []). Qed.
 
-Lemma filter_ord_parts n ls : filter is_ord (parts_from n ls) = [].
+(* a participant of [parts_from] stands for the loader at its position *)
+Definition faith (ls : list loader) (p : participant) : Prop :=
+  exists l, nth_error ls (pid p) = Some l /\ pcls p = lclass l.
+
+Lemma parts_faith ls : forall pre, Forall (faith (pre ++ ls)) (parts_from (length pre) ls).
 Proof.
-  revert n. induction ls as [|l r IH]; intros n; [reflexivity|].
-  cbn [parts_from filter]. unfold is_ord at 1, lclass. cbn [pcls].
-  destruct (is_file l); apply IH.
+  induction ls as [|l r IH]; intros pre; [constructor|]. cbn [parts_from]. constructor.
+  - exists l. split; [apply nth_error_pre|reflexivity].
+  - assert (E : pre ++ l :: r = (pre ++ [l]) ++ r) by (rewrite <- app_assoc; reflexivity).
+    assert (L : S (length pre) = length (pre ++ [l])) by (rewrite app_length; cbn; lia).
+    rewrite E, L. apply IH.
 Qed.
 
-Lemma sequence_shape ls :
-  exists fs, Permutation fs (filter is_file ls) /\
-             sequence ls = fs ++ filter (fun l => negb (is_file l)) ls.
+Lemma Forall_filter {A} (P : A -> Prop) (f : A -> bool) l : Forall P l -> Forall P (filter f l).
 Proof.
-  exists (pick ls (isort (filter is_prio (parts_from 0 ls)))). split.
-  - eapply Permutation_trans.
-    + apply pick_perm, Permutation_sym, isort_perm.
-    + rewrite (pick_filter_parts0 is_prio is_file); [apply Permutation_refl|].
-      intros n l. unfold is_prio, lclass. cbn [pcls]. destruct (is_file l); reflexivity.
-  - unfold sequence, sort_participants. rewrite filter_ord_parts. cbn [isort app].
-    rewrite pick_app. f_equal.
-    apply (pick_filter_parts0 is_unord (fun l => negb (is_file l))).
-    intros n l. unfold is_unord, lclass. cbn [pcls]. destruct (is_file l); reflexivity.
+  intros H. apply Forall_forall. intros x Hx. apply filter_In in Hx.
+  rewrite Forall_forall in H. apply H. tauto.
 Qed.
 
-Lemma filter_partition_perm {A} (f : A -> bool) l :
-  Permutation l (filter f l ++ filter (fun x => negb (f x)) l).
+Lemma pick_insert_by ls p ps l :
+  nth_error ls (pid p) = Some l -> pcls p = lclass l -> Forall (faith ls) ps ->
+  pick ls (insert_by p ps) = g_insert lclass l (pick ls ps).
 Proof.
-  induction l as [|x r IH]; [constructor|]. cbn [filter]. destruct (f x); cbn [negb app].
-  - constructor. exact IH.
-  - eapply Permutation_trans; [constructor; exact IH|]. apply Permutation_middle.
+  intros Hn Hc. induction ps as [|q r IH]; intros Hf.
+  - unfold pick. cbn [insert_by flat_map]. rewrite Hn. reflexivity.
+  - inversion Hf as [|? ? (lq & Hnq & Hcq) Hr]; subst.
+    assert (Eq : order_of q = g_order lclass lq) by (unfold order_of, g_order; rewrite Hcq; reflexivity).
+    assert (Ep : order_of p = g_order lclass l) by (unfold order_of, g_order; rewrite Hc; reflexivity).
+    assert (Epick : pick ls (q :: r) = lq :: pick ls r)
+      by (unfold pick; cbn [flat_map]; rewrite Hnq; reflexivity).
+    rewrite Epick. cbn [insert_by g_insert]. rewrite Eq, Ep.
+    destruct (g_order lclass lq <? g_order lclass l)%Z.
+    + change (pick ls (q :: insert_by p r)) with
+        ((match nth_error ls (pid q) with Some x => [x] | None => [] end) ++ pick ls (insert_by p r)).
+      rewrite Hnq, (IH Hr). reflexivity.
+    + change (pick ls (p :: q :: r)) with
+        ((match nth_error ls (pid p) with Some x => [x] | None => [] end) ++ pick ls (q :: r)).
+      rewrite Hn, Epick. reflexivity.
+Qed.
+
+Lemma isort_faith ls ps : Forall (faith ls) ps -> Forall (faith ls) (isort ps).
+Proof. apply isort_Forall. Qed.
+
+Lemma pick_isort ls ps : Forall (faith ls) ps -> pick ls (isort ps) = g_isort lclass (pick ls ps).
+Proof.
+  induction ps as [|p r IH]; intros Hf; [reflexivity|].
+  inversion Hf as [|? ? (l & Hn & Hc) Hr]; subst. cbn [isort].
+  rewrite (pick_insert_by ls p (isort r) l Hn Hc (isort_faith ls r Hr)), (IH Hr).
+  unfold pick at 2. cbn [flat_map]. rewrite Hn. reflexivity.
+Qed.
+
+(* the loader sequence is the generic sort applied to the loaders themselves *)
+Lemma sequence_direct ls : sequence ls = g_sort lclass ls.
+Proof.
+  unfold sequence, sort_participants, g_sort.
+  assert (F : Forall (faith ls) (parts_from 0 ls)) by exact (parts_faith ls []).
+  rewrite !pick_app, !pick_isort by (apply Forall_filter, F).
+  rewrite (pick_filter_parts0 is_prio (g_is_prio lclass)) by reflexivity.
+  rewrite (pick_filter_parts0 is_ord (g_is_ord lclass)) by reflexivity.
+  rewrite (pick_filter_parts0 is_unord (g_is_unord lclass)) by reflexivity.
+  reflexivity.
 Qed.
 
 Lemma sequence_perm ls : Permutation ls (sequence ls).
+Proof. rewrite sequence_direct. apply g_sort_perm. Qed.
+
+Lemma has_order_perm ls :
+  Permutation (filter has_order ls) (filter (g_is_prio lclass) ls ++ filter (g_is_ord lclass) ls).
 Proof.
-  destruct (sequence_shape ls) as (fs & Hp & ->).
-  eapply Permutation_trans; [apply (filter_partition_perm is_file)|].
-  apply Permutation_app_tail, Permutation_sym, Hp.
+  induction ls as [|a r IH]; [constructor|]. cbn [filter].
+  unfold has_order at 1, g_is_prio at 1, g_is_ord at 1. destruct (lclass a); cbn [app].
+  - constructor. exact IH.
+  - apply Permutation_cons_app. exact IH.
+  - exact IH.
 Qed.
 
-(* files first *)
-Lemma sequence_files_first ls :
-  exists fs us, sequence ls = fs ++ us /\ Forall (fun l => is_file l = true) fs /\
-                Forall (fun l => is_file l = false) us /\ us = filter (fun l => negb (is_file l)) ls.
+(* ordered loaders (priority block, then ordered block) first, then the unordered ones as they were added *)
+Lemma sequence_shape ls :
+  exists fs, Permutation fs (filter has_order ls) /\
+             sequence ls = fs ++ filter (fun l => negb (has_order l)) ls.
+Proof.
+  exists (g_isort lclass (filter (g_is_prio lclass) ls) ++ g_isort lclass (filter (g_is_ord lclass) ls)). split.
+  - eapply Permutation_trans; [|apply Permutation_sym, has_order_perm].
+    apply Permutation_app; apply Permutation_sym, g_isort_perm.
+  - rewrite sequence_direct. unfold g_sort. rewrite <- app_assoc. do 2 f_equal.
+    apply filter_ext. intros l. unfold g_is_unord, has_order. destruct (lclass l); reflexivity.
+Qed.
+
+Lemma sequence_ordered_first ls :
+  exists fs us, sequence ls = fs ++ us /\ Forall (fun l => has_order l = true) fs /\
+                Forall (fun l => has_order l = false) us /\ us = filter (fun l => negb (has_order l)) ls.
 Proof.
   destruct (sequence_shape ls) as (fs & Hp & E).
-  exists fs, (filter (fun l => negb (is_file l)) ls). split; [exact E|]. split; [|split; [|reflexivity]].
+  exists fs, (filter (fun l => negb (has_order l)) ls). split; [exact E|]. split; [|split; [|reflexivity]].
   - eapply Forall_perm; [apply Permutation_sym, Hp|]. apply Forall_filter_self.
   - apply Forall_forall. intros l Hin. apply filter_In in Hin. destruct Hin as [_ H].
     apply negb_true_iff in H. exact H.
+Qed.
+
+(* loaders of one class and Order are consulted in the order in which they were added *)
+Lemma sequence_stable c ls :
+  filter (fun l => same_class (lclass l) c) (sequence ls) = filter (fun l => same_class (lclass l) c) ls.
+Proof. rewrite sequence_direct. apply g_sort_stable. Qed.
+
+(* the sequence obeys the ordering contract of C12 *)
+Lemma sequence_contract ls : contract_ok (map (fun l => mkPart 0 (lclass l)) (sequence ls)) = true.
+Proof.
+  rewrite sequence_direct.
+  rewrite (g_sort_map lclass (fun l => mkPart 0 (lclass l)) pcls) by reflexivity.
+  rewrite <- sort_participants_generic. apply sort_participants_contract.
+Qed.
+
+(* sorting the stored (sorted) list together with later additions = sorting everything added so far *)
+Lemma sequence_resort l1 l2 : sequence (sequence l1 ++ l2) = sequence (l1 ++ l2).
+Proof. rewrite !sequence_direct. apply g_sort_resort. Qed.
+
+Lemma builtin_class l : is_user l = false -> lclass l = if is_file l then Prio 0 else Unord.
+Proof. unfold is_user, lclass, is_file. destruct (lk l); congruence. Qed.
+
+(* with the built-in loader kinds only: the files in the order they were added, then the others in the order
+   they were added *)
+Lemma sequence_builtin ls :
+  Forall (fun l => is_user l = false) ls ->
+  sequence ls = filter is_file ls ++ filter (fun l => negb (is_file l)) ls.
+Proof.
+  intros H. rewrite sequence_direct. unfold g_sort. rewrite Forall_forall in H.
+  assert (Ep : filter (g_is_prio lclass) ls = filter is_file ls).
+  { apply filter_ext_in. intros l Hl. unfold g_is_prio. rewrite (builtin_class l (H l Hl)).
+    destruct (is_file l); reflexivity. }
+  assert (Eo : filter (g_is_ord lclass) ls = []).
+  { apply filter_all_false, Forall_forall. intros l Hl. unfold g_is_ord.
+    rewrite (builtin_class l (H l Hl)). destruct (is_file l); reflexivity. }
+  assert (Eu : filter (g_is_unord lclass) ls = filter (fun l => negb (is_file l)) ls).
+  { apply filter_ext_in. intros l Hl. unfold g_is_unord. rewrite (builtin_class l (H l Hl)).
+    destruct (is_file l); reflexivity. }
+  rewrite Ep, Eo, Eu. cbn [g_isort app]. f_equal.
+  apply g_isort_equal_keys. intros p q Hp Hq.
+  apply filter_In in Hp, Hq. destruct Hp as [Hp Fp], Hq as [Hq Fq].
+  unfold g_order. rewrite (builtin_class p (H p Hp)), (builtin_class q (H q Hq)), Fp, Fq. reflexivity.
 Qed.
 
 (* ---------------------------------------------------------------------------------------- *)
@@ -594,4 +686,105 @@ Lemma args_scalar_then_dotted_panics m k a k2 r b rest :
   args_fold (([k], a) :: (k :: k2 :: r, b) :: rest) m = None.
 Proof.
   cbn [args_fold pset]. rewrite lookup_set_key. reflexivity.
+Qed.
+
+(* ---------------------------------------------------------------------------------------- *)
+(* one Configure used in several steps *)
+
+Lemma consult_docs_of seq : forall ds, docs_of seq = Some ds -> consult seq = (ds, SOk, seq).
+Proof.
+  induction seq as [|l r IH]; intros ds; cbn [docs_of consult].
+  - intros H. injection H as <-. reflexivity.
+  - destruct (load l) as [[d|]| |]; try discriminate;
+      (destruct (docs_of r) as [ds'|]; [|discriminate]); intros H; injection H as <-;
+      rewrite (IH ds' eq_refl); reflexivity.
+Qed.
+
+(* the pass of [run_partial] is the pass of [run_seq]; it only keeps what was merged before a failure *)
+Lemma run_seq_partial seq : forall cfg,
+  run_seq cfg seq = match run_partial cfg seq with
+                    | (c, SOk, _) => ROk c
+                    | (_, SErr, _) => RErr
+                    | (_, SPanic, _) => RPanic
+                    end.
+Proof.
+  unfold run_partial. induction seq as [|l r IH]; intros cfg; cbn [run_seq consult]; [reflexivity|].
+  destruct (load l) as [[d|]| |]; try reflexivity.
+  - rewrite IH. destruct (consult r) as [[ds st] used]. reflexivity.
+  - rewrite IH. destruct (consult r) as [[ds st] used]. reflexivity.
+Qed.
+
+Lemma run_partial_docs seq ds cfg :
+  docs_of seq = Some ds -> run_partial cfg seq = (fold_left merge ds cfg, SOk, seq).
+Proof. intros H. unfold run_partial. rewrite (consult_docs_of seq ds H). reflexivity. Qed.
+
+(* configure.go stores the sorted list back; the specification sorts everything added so far: same histories *)
+Lemma hist_modes_agree_gen steps : forall s s',
+  cs_cfg s = cs_cfg s' ->
+  (forall ext, sequence (cs_loaders s ++ ext) = sequence (cs_loaders s' ++ ext)) ->
+  hist_trace Stored s steps = hist_trace AsAdded s' steps.
+Proof.
+  induction steps as [|st r IH]; intros s s' Hc Hl; [reflexivity|].
+  destruct st as [ls|ls|]; cbn [hist_trace cstep_run cs_cfg cs_loaders].
+  - rewrite Hc. f_equal. apply IH; reflexivity.
+  - rewrite Hc. f_equal. apply IH; [reflexivity|]. cbn [cs_loaders]. unfold add_loaders.
+    intros ext. rewrite <- !app_assoc. apply Hl.
+  - assert (E : sequence (cs_loaders s) = sequence (cs_loaders s')).
+    { specialize (Hl []). rewrite !app_nil_r in Hl. exact Hl. }
+    rewrite <- E, <- Hc.
+    destruct (run_partial (cs_cfg s) (sequence (cs_loaders s))) as [[cfg2 res] used].
+    cbn [cs_cfg]. f_equal. apply IH; [reflexivity|]. cbn [cs_loaders].
+    intros ext. rewrite sequence_resort. apply Hl.
+Qed.
+
+Lemma hist_modes_agree s steps : hist_trace Stored s steps = hist_trace AsAdded s steps.
+Proof. apply hist_modes_agree_gen; reflexivity. Qed.
+
+(* in the specification's view the loader list is what SetLoaders / AddLoaders built; Initialize leaves it alone *)
+Definition loaders_after (cur : list loader) (steps : list cstep) : list loader :=
+  fold_left (fun cur st => match st with CSet ls => ls | CAdd ls => add_loaders cur ls | CInit => cur end) steps cur.
+
+Lemma asadded_loaders steps : forall s,
+  cs_loaders (hist_final AsAdded s steps) = loaders_after (cs_loaders s) steps.
+Proof.
+  induction steps as [|st r IH]; intros s; [reflexivity|].
+  cbn [hist_final]. rewrite IH. unfold loaders_after. cbn [fold_left]. f_equal.
+  destruct st as [ls|ls|]; cbn [cstep_run fst cs_loaders]; try reflexivity.
+  destruct (run_partial (cs_cfg s) (sequence (cs_loaders s))) as [[cfg2 res] used]. reflexivity.
+Qed.
+
+(* every Initialize of a history consults [sequence] of ALL loaders configured so far, and merges on top of
+   the configuration already present: stated on the trace of the code's own (Stored) model *)
+Lemma hist_trace_app m steps1 : forall s steps2,
+  hist_trace m s (steps1 ++ steps2) = hist_trace m s steps1 ++ hist_trace m (hist_final m s steps1) steps2.
+Proof.
+  induction steps1 as [|st r IH]; intros s steps2; [reflexivity|].
+  cbn [app hist_trace hist_final]. destruct (cstep_run m s st) as [s' o]. cbn [fst app].
+  rewrite IH. reflexivity.
+Qed.
+
+Lemma hist_init_after steps s :
+  hist_trace Stored s (steps ++ [CInit]) =
+  hist_trace Stored s steps ++
+  [let s' := hist_final AsAdded s steps in
+   let '(cfg, r, used) := run_partial (cs_cfg s') (sequence (loaders_after (cs_loaders s) steps)) in
+   (cfg, Some (r, used))].
+Proof.
+  rewrite !hist_modes_agree, hist_trace_app. f_equal.
+  cbn [hist_trace cstep_run]. rewrite asadded_loaders.
+  destruct (run_partial _ _) as [[cfg2 res] used]. reflexivity.
+Qed.
+
+(* the scenario of a bootstrap configuration: Initialize, add loaders, Initialize again *)
+Lemma reinitialize l1 l2 ds1 ds2 :
+  docs_of (sequence l1) = Some ds1 -> docs_of (sequence (l1 ++ l2)) = Some ds2 ->
+  hist_trace Stored (mkCState l1 []) [CInit; CAdd l2; CInit] =
+  [(effective ds1, Some (SOk, sequence l1));
+   (effective ds1, None);
+   (effective (ds1 ++ ds2), Some (SOk, sequence (l1 ++ l2)))].
+Proof.
+  intros H1 H2. rewrite hist_modes_agree.
+  cbn [hist_trace cstep_run cs_cfg cs_loaders]. rewrite (run_partial_docs _ ds1 [] H1).
+  cbn [cs_cfg cs_loaders]. unfold add_loaders. rewrite (run_partial_docs _ ds2 _ H2).
+  unfold effective. rewrite fold_left_app. reflexivity.
 Qed.
